@@ -313,3 +313,68 @@ Theorem model_is_code_format_diff : forall c st loc d is_now absolute invert, ca
   end.
 Proof. exact glue_format_diff_step. Qed.
 Print Assumptions model_is_code_format_diff.
+
+(* ---- model = code, continued: Duration.in_words / Interval.in_words (duration.py, interval.py), DateTime.diff_for_humans / Date.diff_for_humans
+   (datetime.py, date.py), Locale.plural / ordinal / ordinalize (locales/locale.py), translated from /repo on every run (Gen/HumanizeGlue.v).
+   Still hand-written: DifferenceFormatter.format's key construction, Locale.get's split of a dotted key (and its _key_cache). ---- *)
+
+(* Duration.in_words(locale, separator): locale None -> the CONFIGURED name; the seven units in the literal's order, those with abs(count) > 0, the
+   plural class of abs(count) but the signed count in the text; no part at all -> the seconds-with-two-decimals / "0 microseconds" fallback;
+   separator.join *)
+Theorem model_is_code_in_words_duration : forall c st loc d us sep, cache_ok c ->
+  match glue_Duration_in_words c st (mkgwords d us) loc sep with
+  | Ok (s, c') => step st (SWords loc d us sep) = (st, Ok s) /\ cache_ok c'
+  | Raise e => step st (SWords loc d us sep) = (st, Raise e)
+  end.
+Proof. exact glue_Duration_in_words_step_thm. Qed.
+Print Assumptions model_is_code_in_words_duration.
+
+(* Interval.in_words loads `locale or pendulum.get_locale()`: the same step, except that locale="" counts as no locale argument *)
+Theorem model_is_code_in_words_interval : forall c st loc d us sep, cache_ok c ->
+  match glue_Interval_in_words c st (mkgwords d us) loc sep with
+  | Ok (s, c') => step st (SWords (falsy_is_none loc) d us sep) = (st, Ok s) /\ cache_ok c'
+  | Raise e => step st (SWords (falsy_is_none loc) d us sep) = (st, Raise e)
+  end.
+Proof. exact glue_Interval_in_words_step_thm. Qed.
+Print Assumptions model_is_code_in_words_interval.
+
+Theorem in_words_interval_is_in_words_duration : forall c st loc w sep, loc <> Some [] ->
+  glue_Interval_in_words c st w loc sep = glue_Duration_in_words c st w loc sep.
+Proof. exact Interval_in_words_is_Duration_in_words. Qed.
+Print Assumptions in_words_interval_is_in_words_duration.
+
+(* diff_for_humans(other, absolute, locale): is_now = (other is None); the value compared with is other, else the clock reading; diff = self.diff(it);
+   format_diff(diff, is_now, absolute, locale) — dfh_model is exactly that over Model/DiffHumans.v diff_comps and the SFmt step *)
+Theorem model_is_code_diff_for_humans : forall c st clock rs a other absolute loc, cache_ok c ->
+  match glue_DateTime_diff_for_humans c st clock rs a other absolute loc with
+  | Ok (s, c') => dfh_model st clock rs a other absolute loc = Ok s /\ cache_ok c'
+  | Raise e => dfh_model st clock rs a other absolute loc = Raise e
+  end.
+Proof. exact glue_DateTime_diff_for_humans_thm. Qed.
+Print Assumptions model_is_code_diff_for_humans.
+
+Theorem model_is_code_diff_for_humans_date : forall c st clock rs a other absolute loc, cache_ok c ->
+  match glue_Date_diff_for_humans c st clock rs a other absolute loc with
+  | Ok (s, c') => dfh_model st clock rs a other absolute loc = Ok s /\ cache_ok c'
+  | Raise e => dfh_model st clock rs a other absolute loc = Raise e
+  end.
+Proof. exact glue_Date_diff_for_humans_thm. Qed.
+Print Assumptions model_is_code_diff_for_humans_date.
+
+(* with an explicit other and a locale that loads, that is the diff_for_humans of Model/DiffHumans.v (the one diff_for_humans_total is about) *)
+Theorem diff_for_humans_model_is_DiffHumans : forall st clock rs a b absolute loc L, load (eff st loc) = Ok L ->
+  dfh_model st clock rs a (Some b) absolute loc = diff_for_humans L rs a b absolute.
+Proof. exact dfh_model_is_DiffHumans. Qed.
+Print Assumptions diff_for_humans_model_is_DiffHumans.
+
+Theorem model_is_code_locale_plural : forall L n, glue_Locale_plural L n = lplural L n.
+Proof. exact glue_Locale_plural_spec. Qed.
+Print Assumptions model_is_code_locale_plural.
+
+Theorem model_is_code_locale_ordinal : forall L n, glue_Locale_ordinal L n = lordinal L n.
+Proof. exact glue_Locale_ordinal_spec. Qed.
+Print Assumptions model_is_code_locale_ordinal.
+
+Theorem model_is_code_locale_ordinalize : forall L n, glue_Locale_ordinalize L n = ordinalize L n.
+Proof. exact glue_Locale_ordinalize_spec. Qed.
+Print Assumptions model_is_code_locale_ordinalize.
